@@ -176,6 +176,8 @@ def body():
     d0 = api.function_space(g2, "DP", 0)
     pts = np.random.RandomState(chk.seed).rand(3, 50) * 8 + 4
     coeffs = np.random.RandomState(chk.seed + 1).rand(p1.global_dof_count)
+    p1w = api.function_space(g2, "P", 1, swapped_normals=[5])       # non-constant normal multipliers
+    d0w = api.function_space(g2, "DP", 0, swapped_normals=[5])
 
     def run_all():
         out = []
@@ -184,6 +186,10 @@ def body():
         out.append(ops.helmholtz.double_layer(p1, d0, d0, 1.1).weak_form().to_dense())
         out.append(ops.maxwell.electric_field(rwg, rwg, snc, 0.9).weak_form().to_dense())
         out.append(api.operators.potential.laplace.double_layer(p1, pts).evaluate(api.GridFunction(p1, coefficients=coeffs)))
+        # interleaved assemblies on spaces with swapped normals: double layer, Helmholtz hypersingular, double layer again (must equal the first)
+        out.append(ops.laplace.double_layer(p1w, d0w, d0w).weak_form().to_dense())
+        out.append(ops.helmholtz.hypersingular(p1w, p1w, p1w, 0.9 + 0.2j).weak_form().to_dense())
+        out.append(ops.laplace.double_layer(p1w, d0w, d0w).weak_form().to_dense())
         return out
 
     maxthreads = numba.config.NUMBA_NUM_THREADS
@@ -194,6 +200,9 @@ def body():
             numba.set_num_threads(n)
             out = run_all()
             chk.count(("threads", n, rep), True)
+            if not np.array_equal(out[-1], out[-3]):
+                chk.violation("threads:interleaving", "a double layer assembled before and after a Helmholtz hypersingular operator on the same space (swapped normals) differs by %.3g (%d threads)" % (
+                    np.abs(out[-1] - out[-3]).max(), n), {"threads": n})
             if ref is None:
                 ref = out
                 continue
